@@ -53,15 +53,35 @@ QueryAdd(st, a) ==
     \* (a sub-query that cannot be evaluated adds nothing; whether the call then reports an error is not C14's business)
     LET b == QueryAddBuilders(st, a) IN IF ~b.ok THEN [outcome |-> "either", st |-> st, res |-> 0] ELSE AnnotateBatch(st, [items |-> b.items])
 
+\* C02 "by query": DELETE <TYPE> ?x { sub-query binding ?x }: every result of the sub-query is removed (strictly), in
+\* result order; an item that an earlier removal of the same query has already taken along is simply gone.  a = [sub]
+RECURSIVE DeleteAll(_, _)
+DeleteAll(st, items) ==
+    IF items = <<>> THEN Ok(st, 0)
+    ELSE LET it == Head(items)
+             r == CASE it.t = "ann" -> IF AnnAlive(st, it.a) THEN RemoveAnnotation(st, [ann |-> ByH(it.a)]) ELSE Ok(st, 0)
+                    [] it.t = "res" -> IF ResAlive(st, it.a) THEN RemoveResource(st, [res |-> ByH(it.a)]) ELSE Ok(st, 0)
+                    [] it.t = "set" -> IF SetAlive(st, it.a) THEN RemoveDataset(st, [set |-> ByH(it.a)]) ELSE Ok(st, 0)
+                    [] it.t = "data" -> IF SetAlive(st, it.a) /\ DataAlive(st.sets[it.a], it.b)
+                                        THEN RemoveData(st, [set |-> ByH(it.a), data |-> ByH(it.b), strict |-> TRUE]) ELSE Ok(st, 0)
+                    [] OTHER -> IF SetAlive(st, it.a) /\ KeyAlive(st.sets[it.a], it.b)
+                                THEN RemoveKey(st, [set |-> ByH(it.a), key |-> ByH(it.b), strict |-> TRUE]) ELSE Ok(st, 0)
+         IN IF r.outcome # "ok" THEN Err(st) ELSE DeleteAll(r.st, Tail(items))
+QueryDelete(st, a) ==
+    LET e == EvalQ(st, <<>>, a.sub)
+        rows == SortSeq(SetToSeq(e.rows), LAMBDA x, y : TupleLess(ItemKey(x[1]), ItemKey(y[1])))
+    IN IF ~e.ok THEN [outcome |-> "either", st |-> st, res |-> 0] ELSE DeleteAll(st, [i \in DOMAIN rows |-> rows[i][1]])
+
 ApplyAny(st, ev, a) ==
     CASE ev = "ProtectText" -> ProtectText(st, a)
       [] ev = "AnnotateBatch" -> AnnotateBatch(st, a)
       [] ev = "Reindex"     -> Reindex(st)
       [] ev = "QueryAdd"    -> QueryAdd(st, a)
+      [] ev = "QueryDelete" -> QueryDelete(st, a)
       [] ev = "Transpose"   -> Transpose(st, a)
       [] OTHER              -> Apply(st, ev, a)
 
-MutatingEventsAll == MutatingEvents \cup {"ProtectText", "Transpose", "AnnotateBatch", "Reindex", "QueryAdd"}
+MutatingEventsAll == MutatingEvents \cup {"ProtectText", "Transpose", "AnnotateBatch", "Reindex", "QueryAdd", "QueryDelete"}
 
 \* (a batch is in the domain if each item is, on the state it meets when the earlier items have been added)
 RECURSIVE BatchInDomain(_, _)
